@@ -52,6 +52,7 @@ class Gen:
 # typing special forms / origins
 UNION = Ty("Union", "typing")
 OPTIONAL = Ty("Optional", "typing")
+UNIONTYPE = Ty("UnionType", "types")  # origin of PEP 604 unions (X | None)
 LIST = Ty("list", "builtins", iterable=True)
 SET = Ty("set", "builtins", iterable=True)
 TUPLE = Ty("tuple", "builtins", iterable=True)
@@ -76,8 +77,13 @@ def opt(x):
     return Gen(UNION, (x, NONE))
 
 
+def opt_forms(x):
+    """every spelling of 'x or None': Optional[x] / Union[x, None], Union[None, x], x | None, None | x"""
+    return [Gen(UNION, (x, NONE)), Gen(UNION, (NONE, x)), Gen(UNIONTYPE, (x, NONE)), Gen(UNIONTYPE, (NONE, x))]
+
+
 GLOBALS = {
-    "Union": UNION, "Optional": OPTIONAL, "list": LIST, "set": SET, "tuple": TUPLE, "type": TYPE, "Sequence": SEQUENCE,
+    "Union": UNION, "Optional": OPTIONAL, "UnionType": UNIONTYPE, "list": LIST, "set": SET, "tuple": TUPLE, "type": TYPE, "Sequence": SEQUENCE,
     "Type": TYPING_TYPE, "NoneType": NONE, "int": INT, "float": FLOAT, "str": STR, "bool": BOOL, "datetime": DATETIME,
     "UUID": UUID_, "List": Ty("List", "typing"), "Set": Ty("Set", "typing"),
 }
@@ -145,22 +151,22 @@ def f_all(x):
     return all(x)
 
 
-FUNCS = {"get_origin": f_get_origin, "get_args": f_get_args, "issubclass": f_issubclass, "hasattr": f_hasattr, "len": f_len}
+FUNCS = {"next": lambda g: next(iter(g)), "get_origin": f_get_origin, "get_args": f_get_args, "issubclass": f_issubclass, "hasattr": f_hasattr, "len": f_len}
 
 # the supported grammar: category -> representative annotations (every shape of the category)
 CATEGORIES: Dict[str, List[Any]] = {
     "builtin": [INT, FLOAT, STR, BOOL, DATETIME],
-    "optional-builtin": [opt(INT), opt(STR), opt(DATETIME)],
+    "optional-builtin": opt_forms(INT) + [opt(STR), opt(DATETIME)],
     "enum": [MYENUM],
-    "optional-enum": [opt(MYENUM)],
+    "optional-enum": opt_forms(MYENUM),
     "list-of-builtins": [Gen(LIST, (INT,)), Gen(SET, (STR,)), Gen(LIST, (FLOAT,))],
     "list-of-uuid": [Gen(LIST, (UUID_,))],
     "mapped": [MAPPED],
-    "optional-mapped": [opt(MAPPED)],
+    "optional-mapped": opt_forms(MAPPED),
     "collection-of-mapped": [Gen(LIST, (MAPPED,)), Gen(SET, (MAPPED,)), Gen(SEQUENCE, (MAPPED,))],
     "type-of": [Gen(TYPE, (MAPPED,)), Gen(TYPE, (OTHER,))],
     "custom": [CUSTOM],
-    "optional-custom": [opt(CUSTOM)],
+    "optional-custom": opt_forms(CUSTOM),
     "list-of-custom": [Gen(LIST, (CUSTOM,))],
 }
 # classification-only categories (C17): annotations the class diagram classifies although the ORM grammar (C06) does not list them
@@ -196,7 +202,7 @@ EXPECTED: Dict[str, Dict[str, Any]] = {
 
 def inner_of(ann):
     if isinstance(ann, Gen):
-        if ann.origin is UNION:
+        if ann.origin in (UNION, UNIONTYPE):
             return [a for a in ann.args if a is not NONE][0]
         return ann.args[0]
     return ann
